@@ -4,8 +4,9 @@
 Each assertion is a `Bool` function: `true` = the Rust function returns `()`, `false` = it panics.
 Transliterated check by check, in the order the Rust code performs them.
 
-`Legacy.*` is the code as it was at the pinned commit (set-based comparison); the un-prefixed
-definitions follow the current code (count-based comparison added by the `fix:` commit).
+`Legacy.*` is the code as it was before the respective `fix:` commit (set-based comparison in the
+unordered/grouped assertions; position-wise comparison after the stable sort in the key/value
+assertion); the un-prefixed definitions follow the current code.
 -/
 namespace IB.Assertions
 
@@ -38,11 +39,50 @@ variable {κ : Type} [DecidableEq κ]
 def sortByKey (le : κ → κ → Bool) (l : List (κ × α)) : List (κ × α) :=
   l.mergeSort (fun x y => le x.1 y.1)
 
-/-- `assert_kv_collections_equal`: stable sort both by key, length, then pairwise `(k, v)`. -/
-def assertKv (le : κ → κ → Bool) (actual expected : List (κ × α)) : Bool :=
+/-- `assert_kv_collections_equal` before the `fix:` commit: stable sort both by key, length, then
+    pairwise `(k, v)`. -/
+def Legacy.assertKv (le : κ → κ → Bool) (actual expected : List (κ × α)) : Bool :=
   let a := sortByKey le actual
   let e := sortByKey le expected
   a.length == e.length && (a.zip e).all (fun p => p.1.1 == p.2.1 && p.1.2 == p.2.2)
+
+/-- `(start..end).find(|&j| !used[j - start] && expected[j].0 == *ak && expected[j].1 == *av)`
+    followed by `used[j - start] = true`: the updated `used` flags, `none` = no partner (panic).
+    `re` is `expected[start..end]`, `used` the flags of that run. -/
+def markFirst (row : κ × α) : List (κ × α) → List Bool → Option (List Bool)
+  | e :: es, u :: us =>
+      if !u && e.1 == row.1 && e.2 == row.2 then some (true :: us)
+      else (markFirst row es us).map (u :: ·)
+  | _, _ => none
+
+/-- `for i in start..end { … }` over one run: `ra` = the not yet visited rows of `actual[start..end]`. -/
+def matchRun : List (κ × α) → List (κ × α) → List Bool → Bool
+  | [], _, _ => true
+  | row :: rest, re, used =>
+      match markFirst row re used with
+      | some used' => matchRun rest re used'
+      | none => false
+
+/-- `while start < actual.len() { … start = end }`: `a`, `e` are `actual[start..]`, `expected[start..]`.
+    One iteration consumes one run (`end - start ≥ 1` rows), so `fuel = actual.len()` iterations
+    always suffice; running out of fuel with rows left would answer `false` (never reached: the
+    theorems are about the call made by `assertKv`, with exactly this fuel). -/
+def walkRuns : Nat → List (κ × α) → List (κ × α) → Bool
+  | _, [], _ => true
+  | 0, _ :: _, _ => false
+  | fuel + 1, (k, v) :: rest, e =>
+      -- `end = start + 1; while end < len && actual[end].0 == actual[start].0 { end += 1 }`
+      let n := 1 + (rest.takeWhile (fun r => r.1 == k)).length
+      matchRun (((k, v) :: rest).take n) (e.take n) (List.replicate n false) &&
+        walkRuns fuel (((k, v) :: rest).drop n) (e.drop n)
+
+/-- current `assert_kv_collections_equal`: stable sort both by key, length, then every run of equal
+    keys of `actual` is matched greedily (with `==` on the whole row) against the rows of `expected`
+    at the same positions, each expected row being used at most once. -/
+def assertKv (le : κ → κ → Bool) (actual expected : List (κ × α)) : Bool :=
+  let a := sortByKey le actual
+  let e := sortByKey le expected
+  a.length == e.length && walkRuns a.length a e
 
 /-- pinned-commit `assert_grouped_kv_equal`: sort by key, lengths, keys pairwise, values as *sets*. -/
 def Legacy.assertGrouped (le : κ → κ → Bool) (actual expected : List (κ × List α)) : Bool :=
@@ -56,5 +96,9 @@ def assertGrouped (le : κ → κ → Bool) (actual expected : List (κ × List 
   let e := sortByKey le expected
   a.length == e.length &&
     (a.zip e).all (fun p => p.1.1 == p.2.1 && setEq p.1.2 p.2.2 && countsEq p.1.2 p.2.2)
+
+/-- the key/value rows a grouped collection stands for: `(k, [v₁, v₂])` ↦ `(k, v₁), (k, v₂)` -/
+def flattenGroups (g : List (κ × List α)) : List (κ × α) :=
+  g.flatMap (fun r => r.2.map (fun v => (r.1, v)))
 
 end IB.Assertions
